@@ -33,10 +33,20 @@ impl SeqGroup {
     }
 
     pub fn apply_range(&mut self, start: u64, len: u64) {
-        if self.use_a && !self.range_a.has_next() || !self.use_a && self.range_b.has_next() {
-            self.range_a.renew(start, len);
+        // ids are handed out in the order their ranges were reserved: an exhausted current buffer
+        // gives way to the other one first, and the new range always goes into the spare buffer
+        let (current_has_next, spare_has_next) = if self.use_a {
+            (self.range_a.has_next(), self.range_b.has_next())
         } else {
+            (self.range_b.has_next(), self.range_a.has_next())
+        };
+        if !current_has_next && spare_has_next {
+            self.switch_state();
+        }
+        if self.use_a {
             self.range_b.renew(start, len);
+        } else {
+            self.range_a.renew(start, len);
         }
     }
 
